@@ -92,6 +92,7 @@ func cmdCheck(args []string) {
 	jobs := fs.Int("jobs", 8, "parallel obligations")
 	noReplay := fs.Bool("no-replay", false, "skip counterexample replay")
 	quiet := fs.Bool("q", false, "less output")
+	only := fs.String("only", "", "development aid: restrict to functions whose key contains this substring (evidence is then partial)")
 	fs.Parse(args[1:])
 	if *tier == "" {
 		*tier = "quick"
@@ -134,6 +135,9 @@ func cmdCheck(args []string) {
 	var keys []string
 	for k, fc := range p.cons.funcs {
 		if fc.trusted || fc.inline || strings.Contains(k, ".iface:") || strings.Contains(k, ".functype:") {
+			continue
+		}
+		if *only != "" && !strings.Contains(k, *only) {
 			continue
 		}
 		for _, pr := range fc.props {
@@ -323,10 +327,24 @@ func x_replay(p *program, r *funcResult, o *obligation, vdir, prop, work string,
 	script := r.script(o)
 	var model map[string]string
 	ok := false
-	for _, bound := range []int{8, cexMaxStr} {
+	// preferences, tried in order: small inputs and failure in the first loop iteration (so that the entry state
+	// reaches it directly), then small inputs only, then larger inputs
+	for attempt, bound := range []int{8, 8, cexMaxStr} {
 		var side []string
 		for _, t := range trees {
 			t.small(&side, bound)
+		}
+		if attempt == 0 {
+			n := 0
+			for _, p := range x.firstIter {
+				if p.nDecl <= o.nDecl {
+					side = append(side, p.term)
+					n++
+				}
+			}
+			if n == 0 {
+				continue
+			}
 		}
 		model, ok = getValues(work, base, script, terms, side, 20)
 		if ok {
